@@ -476,10 +476,11 @@ class MappingParser:
 
     def parse_mappings(self):
         self._get_from_r2_rml()
+        # the triples map identifiers are rewritten by _preprocess_mappings, check them before
+        self.validate_mappings()
         self._preprocess_mappings()
 
         self._infer_datatypes()
-        self.validate_mappings()
 
         logging.info(f'{len(self.rml_df)} mapping rules retrieved.')
 
